@@ -31,7 +31,8 @@
    [du-timeout] deferredutil.timeout_call docstring
    [du-hook]    deferredutil.HookMixin docstrings
    [du-until]   deferredutil.until docstring
-   [du-wait]    WaitForDelayedCallsMixin comments
+   [du-wait]    WaitForDelayedCallsMixin comments ("We're done when the only remaining DelayedCalls fire after threshold")
+   [du-a2d]     async_to_deferred docstring ("Wrap an async function to return a Deferred instead") and test_deferredutil.py
    [du-ev]      eventually_callback / eventual_chain; _with_log docstring
    [cons]       util/consumer.py docstrings (MemoryConsumer.registerProducer comments, download_to_data)
    [dict]       util/dictutil.py docstrings (AuxValueDict, _TypedKeyDict); DictOfSets by its callers (a key is present
@@ -415,23 +416,66 @@ TKCmds(S) == IF ~S.made THEN {[op |-> "new", flavor |-> f, keys |-> ks] : f \in 
              ELSE {[op |-> o, k |-> k, v |-> v] : o \in {"set", "setdefault"}, k \in TKKeys, v \in {"v1", "v2"}}
                   \cup {[op |-> o, k |-> k] : o \in {"getitem", "get", "del"}, k \in TKKeys}
 
+(* ======================= async_to_deferred [du-a2d] ============================================================= *)
+\* the wrapped coroutine function: mode "ret" returns "r", "raise" raises E1, "await" awaits an input Deferred and returns
+\* "r:" + its result (a failure of the input propagates).  The wrapper returns a Deferred, and the body starts at once.
+A2Init == [made |-> FALSE, waiting |-> FALSE, status |-> "none", v |-> ""]
+A2Out(S) == [isdeferred |-> TRUE, started |-> TRUE, status |-> S.status, v |-> S.v]
+A2Steps(S, c) ==
+  CASE c.op = "call" -> {LET S1 == CASE c.mode = "ret" -> [S EXCEPT !.made = TRUE, !.status = "ok", !.v = "r"]
+                                     [] c.mode = "raise" -> [S EXCEPT !.made = TRUE, !.status = "fail", !.v = "E1"]
+                                     [] OTHER -> [S EXCEPT !.made = TRUE, !.waiting = TRUE, !.status = "pending"]
+                         IN R(S1, A2Out(S1))}
+    [] c.op = "cb" -> {LET S1 == [S EXCEPT !.waiting = FALSE, !.status = "ok", !.v = "r:" \o c.v] IN R(S1, A2Out(S1))}
+    [] c.op = "eb" -> {LET S1 == [S EXCEPT !.waiting = FALSE, !.status = "fail", !.v = c.e] IN R(S1, A2Out(S1))}
+    [] OTHER -> {}
+A2Cmds(S) == IF ~S.made THEN {[op |-> "call", mode |-> m] : m \in {"ret", "raise", "await"}}
+             ELSE IF S.waiting THEN {[op |-> "cb", v |-> v] : v \in Vals} \cup {[op |-> "eb", e |-> e] : e \in Errs} ELSE {}
+
+(* ======================= WaitForDelayedCallsMixin [du-wait] ===================================================== *)
+\* time in whole seconds; calls: the times of the pending DelayedCalls; one wait_for_delayed_calls(res) at a time (its
+\* poll runs every 0.01 s, i.e. "all the time" at this resolution).  "We're done when the only remaining DelayedCalls
+\* fire after threshold" (now + 10 s).  Whether the poll hits a whole second exactly is left open (sure / maybe).
+WDInit == [now |-> 0, calls |-> {}, w |-> "none", res |-> ""]
+WDOut(S) == [status |-> S.w, v |-> IF S.w = "ok" THEN S.res ELSE IF S.w = "fail" THEN "E1" ELSE ""]
+WDDone(S) == [S EXCEPT !.w = IF S.res = "F:E1" THEN "fail" ELSE "ok"]
+WDFreeUnit(P, n) == \A c \in P : ~(n + 1 <= c /\ c <= n + 10)        \* every instant of (n, n+1] is free
+WDFreeInstant(P, n) == \A c \in P : c <= n \/ c >= n + 10              \* the instant n is free
+WDSteps(S, c) ==
+  CASE c.op = "later" -> {LET S1 == [S EXCEPT !.calls = @ \cup {S.now + c.dt}] IN R(S1, WDOut(S1))}
+    [] c.op = "wait" -> {LET S1 == [S EXCEPT !.res = c.res, !.w = "pending"]
+                             S2 == IF \A x \in S.calls : x >= S.now + 10 THEN WDDone(S1) ELSE S1 IN R(S2, WDOut(S2))}
+    [] c.op = "tick" ->
+         LET t == S.now + c.dt
+             S1 == [S EXCEPT !.now = t, !.calls = {x \in @ : x > t}]
+             sure == \E n \in S.now..(t - 1) : WDFreeUnit(S.calls, n)
+             maybe == \E n \in (S.now + 1)..t : WDFreeInstant(S.calls, n)
+         IN IF S.w # "pending" THEN {R(S1, WDOut(S1))}
+            ELSE (IF sure \/ maybe THEN {R(WDDone(S1), WDOut(WDDone(S1)))} ELSE {}) \cup (IF ~sure THEN {R(S1, WDOut(S1))} ELSE {})
+    [] OTHER -> {}
+WDCmds(S) == {[op |-> "later", dt |-> d] : d \in {3, 8, 12}} \cup {[op |-> "tick", dt |-> d] : d \in {1, 5}}
+             \cup (IF S.w = "none" THEN {[op |-> "wait", res |-> r] : r \in {"a", "F:E1"}} ELSE {})
+
 (* ======================= dispatch =============================================================================== *)
 AllKinds == {"oneshot", "lazy", "obslist", "stream", "poll", "gather", "dlss", "race", "timeout", "hook", "until",
-             "evchain", "consumer", "dictofsets", "auxdict", "typedkeys"}
+             "evchain", "a2d", "waitdc", "consumer", "dictofsets", "auxdict", "typedkeys"}
 InitSt(k) ==
   CASE k = "oneshot" -> OSInit(FALSE) [] k = "lazy" -> OSInit(TRUE) [] k = "obslist" -> OLInit [] k = "stream" -> ESInit
     [] k = "poll" -> PMInit [] k = "gather" -> GAInit("gather") [] k = "dlss" -> GAInit("dlss") [] k = "race" -> RAInit
     [] k = "timeout" -> TOInit [] k = "hook" -> HKInit [] k = "until" -> UNInit [] k = "evchain" -> ECInit
+    [] k = "a2d" -> A2Init [] k = "waitdc" -> WDInit
     [] k = "consumer" -> CNInit [] k = "dictofsets" -> DSInit [] k = "auxdict" -> AVInit [] k = "typedkeys" -> TKInit
 Cmds(k, S, wide) ==
   CASE k \in {"oneshot", "lazy"} -> OSCmds(S, wide) [] k = "obslist" -> OLCmds(S, wide) [] k = "stream" -> ESCmds(S)
     [] k = "poll" -> PMCmds(S, wide) [] k \in {"gather", "dlss"} -> GACmds(S) [] k = "race" -> RACmds(S)
     [] k = "timeout" -> TOCmds(S) [] k = "hook" -> HKCmds(S, wide) [] k = "until" -> UNCmds(S) [] k = "evchain" -> ECCmds(S)
+    [] k = "a2d" -> A2Cmds(S) [] k = "waitdc" -> WDCmds(S)
     [] k = "consumer" -> CNCmds(S) [] k = "dictofsets" -> DSCmds(S, wide) [] k = "auxdict" -> AVCmds(S, wide) [] k = "typedkeys" -> TKCmds(S)
 Steps(k, S, c) ==
   CASE k \in {"oneshot", "lazy"} -> OSSteps(S, c) [] k = "obslist" -> OLSteps(S, c) [] k = "stream" -> ESSteps(S, c)
     [] k = "poll" -> PMSteps(S, c) [] k \in {"gather", "dlss"} -> GASteps(S, c) [] k = "race" -> RASteps(S, c)
     [] k = "timeout" -> TOSteps(S, c) [] k = "hook" -> HKSteps(S, c) [] k = "until" -> UNSteps(S, c) [] k = "evchain" -> ECSteps(S, c)
+    [] k = "a2d" -> A2Steps(S, c) [] k = "waitdc" -> WDSteps(S, c)
     [] k = "consumer" -> CNSteps(S, c) [] k = "dictofsets" -> DSSteps(S, c) [] k = "auxdict" -> AVSteps(S, c) [] k = "typedkeys" -> TKSteps(S, c)
 \* documented-behaviour deviations of the code as it is (reported as findings, the replay continues with them)
 DevSteps(k, S, c) ==
